@@ -114,6 +114,7 @@ def run(pid, tier, replay=None):
     if pid == "C01":
         from checks import c10
         c10.legs(c, "C01", tier)        # producer 3: retain on a well-formed registry
+        builder_leg(c, tier)            # producer 2: the runtime builder (producer 4, decode(encode(.)), rides on the traces above)
     c.cov["exhaustive"] = True
     c.cov["rule"] = ("design: all universes on 3 identities with <=2 ordered children (2197 graphs, alias spellings on edges, 11 definition shapes) x all histories of 3 registrations%s; "
                      "spec->impl: every terminal behaviour replayed through runtime-configurable Node<I> types on the real Registry; "
@@ -121,6 +122,26 @@ def run(pid, tier, replay=None):
     c.assumptions += ["small-scope hypothesis (3 identities exhaustively, 12 randomly)", "the harness's Node<I> types are a faithful stand-in for arbitrary user TypeInfo impls",
                       "TLC, the projection code in harness/vh/src/proj.rs and serde_json are trusted"]
     return c.finish()
+
+def builder_leg(c, tier):
+    wd = c.wd
+    r = vlib.tlc("MC_Builder", write_cfg(wd, "MC_Builder.cfg", "CONSTANTS MaxOps = %d MaxRef = 3\nSPECIFICATION Spec\nINVARIANT C01_BuilderDense C01_BuilderClosedIffDisciplined Emit\nCHECK_DEADLOCK FALSE\n" % (5 if tier == "thorough" else 4)), wd, workers=4)
+    if not r.ok: raise vlib.ToolError("MC_Builder failed: " + "\n".join(r.errors[:3]))
+    c.add("states", r.distinct); c.add("transitions", r.generated)
+    out = os.path.join(wd, "MC_Builder.cfg.out")
+    n = sum(1 for l in open(out) if l.startswith('<<"CASE"'))
+    if n != r.distinct: raise vlib.ToolError("builder history emission incomplete")
+    x = os.path.join(vlib.cargo_build(["interner"]), "interner")
+    mf = os.path.join(wd, "builder_mismatch.ndjson")
+    p = vlib.run([x, "builder", out, mf])
+    if p.returncode != 0: raise vlib.ToolError("interner builder crashed: " + p.stderr[-1500:])
+    s = json.loads(p.stdout.strip().splitlines()[-1])
+    if s["executed"] != n: raise vlib.ToolError("builder replay incomplete")
+    c.add("evaluations", n); c.add("builder_histories_replayed_on_impl", n); c.add("traces_validated_against_impl", n)
+    bad = vlib.ndjson_read(mf)
+    if bad:
+        rp = c.replay_file("builder_histories_mismatch.ndjson", "\n".join(json.dumps(b) for b in bad[:30]) + "\n")
+        c.violation("builder", "%d builder histories: %s (ops %s)" % (len(bad), bad[0]["mismatch"][0], json.dumps(bad[0]["input"]["ops"])), rp)
 
 def replay_cases(c, pid, exe, cases_file, ncases):
     mf = os.path.join(c.wd, "mismatch.ndjson")
